@@ -1470,6 +1470,46 @@ fire("c13-plate-fusion-keeps-one-axis-too-many", "C13", GAUSS,
 fire("c13-all-reals-marginalised-ignores-int-reduction", "C13", GAUSS,
      "                return self.log_normalizer.reduce(ops.logaddexp, reduced_ints)\n", "                return self.log_normalizer\n", "R13.1", "Gaussian.eager_reduce")
 
+# ---- round 10: R12.8 - R12.10, R13.6 (skipped alignment), R13.8 - R13.10
+INTEGRATE = "funsor/integrate.py"
+fire("c12-subs-real-number-not-converted", "C12", GAUSS,
+     "            (k, Tensor(ops.new_full(self.white_vec, (), v.data)))\n            if isinstance(v, Number)\n            else (k, v)\n", "            (k, v)\n", "R12.8", "_eager_subs_real")
+silent("c12-s-subs-real-classification-tensors-only", "C12", GAUSS,
+       "            if isinstance(v, (Number, Tensor))\n            if v.dtype == \"real\"\n", "            if isinstance(v, Tensor)\n            if v.dtype == \"real\"\n")
+fire("c12-affine-coefficient-of-existing-input-dropped", "C12", GAUSS,
+     "                if new_k in coeffs:\n                    coeff, eqn = coeffs[new_k]\n", "                if new_k in coeffs and new_k not in old_offsets:\n                    coeff, eqn = coeffs[new_k]\n", "R12.9", "_eager_subs_affine")
+fire("c12-affine-coefficient-skipped-by-continue", "C12", GAUSS,
+     "                if new_k in coeffs:\n                    coeff, eqn = coeffs[new_k]\n", "                if new_k in old_real_inputs:\n                    continue\n                if new_k in coeffs:\n                    coeff, eqn = coeffs[new_k]\n", "R12.9", "_eager_subs_affine")
+silent("c12-s-affine-coefficient-guard-negated-continue", "C12", GAUSS,
+       "                if new_k in coeffs:\n                    coeff, eqn = coeffs[new_k]\n", "                if new_k not in coeffs:\n                    continue\n                if True:\n                    coeff, eqn = coeffs[new_k]\n")
+fire("c12-compress-gaussians-cholesky-route", "C12", GAUSS,
+     "    white_vec, prec_sqrt, shift = _compress_rank(white_vec, prec_sqrt)\n    int_inputs", "    white_vec, prec_sqrt, shift = _compress_rank(white_vec, prec_sqrt, True)\n    int_inputs", "R12.10", "_compress_gaussians")
+fire("c12-constructor-compression-cholesky-route", "C12", GAUSS,
+     "            white_vec, prec_sqrt, shift = _compress_rank(white_vec, prec_sqrt)\n", "            white_vec, prec_sqrt, shift = _compress_rank(white_vec, prec_sqrt, assume_full_rank=True)\n", "R12.10")
+silent("c12-s-compress-explicit-qr-route", "C12", GAUSS,
+       "    white_vec, prec_sqrt, shift = _compress_rank(white_vec, prec_sqrt)\n    int_inputs", "    white_vec, prec_sqrt, shift = _compress_rank(white_vec, prec_sqrt, assume_full_rank=False)\n    int_inputs")
+fire("c13-integrate-alignment-skipped-on-equal-key-sets", "C13", INTEGRATE,
+     "            rhs_white_vec, rhs_prec_sqrt = align_gaussian(inputs, integrand)\n",
+     "            if set(integrand.inputs) == set(inputs):\n                rhs_white_vec, rhs_prec_sqrt = integrand.white_vec, integrand.prec_sqrt\n            else:\n                rhs_white_vec, rhs_prec_sqrt = align_gaussian(inputs, integrand)\n",
+     "R13.6", "eager_integrate_gaussian_gaussian")
+silent("c13-s-integrate-alignment-skipped-on-equal-ordered-inputs", "C13", INTEGRATE,
+       "            rhs_white_vec, rhs_prec_sqrt = align_gaussian(inputs, integrand)\n",
+       "            if integrand.inputs == log_measure.inputs:\n                rhs_white_vec, rhs_prec_sqrt = integrand.white_vec, integrand.prec_sqrt\n            else:\n                rhs_white_vec, rhs_prec_sqrt = align_gaussian(inputs, integrand)\n")
+fire("c13-mixture-integral-pushed-down-with-integer-variables", "C13", INTEGRATE,
+     "    if reduced_vars <= real_vars:\n        discrete, gaussian", "    if real_vars <= reduced_vars:\n        discrete, gaussian", "R13.8", "eager_integrate_gaussianmixture")
+fire("c13-mixture-integral-pushed-down-when-any-real", "C13", INTEGRATE,
+     "    if reduced_vars <= real_vars:\n        discrete, gaussian", "    if real_vars:\n        discrete, gaussian", "R13.8", "eager_integrate_gaussianmixture")
+silent("c13-s-mixture-integral-guard-as-difference", "C13", INTEGRATE,
+       "    if reduced_vars <= real_vars:\n        discrete, gaussian", "    if not (reduced_vars - real_vars):\n        discrete, gaussian")
+fire("c13-integrate-result-drops-all-reduced-names", "C13", INTEGRATE,
+     "            inputs = OrderedDict((k, d) for k, d in inputs.items() if k not in real_vars)\n", "            inputs = OrderedDict((k, d) for k, d in inputs.items() if k not in reduced_names)\n", "R13.9", "eager_integrate_gaussian_gaussian")
+fire("c13-integrate-variable-result-keeps-real-inputs", "C13", INTEGRATE,
+     "            (k, d) for k, d in log_measure.inputs.items() if d.dtype != \"real\"\n        )\n        result = Tensor(data, inputs)", "            (k, d) for k, d in log_measure.inputs.items() if k not in reduced_vars\n        )\n        result = Tensor(data, inputs)", "R13.9", "eager_integrate_gaussian_variable")
+silent("c13-s-integrate-result-filters-by-dtype", "C13", INTEGRATE,
+       "            inputs = OrderedDict((k, d) for k, d in inputs.items() if k not in real_vars)\n", "            inputs = OrderedDict((k, d) for k, d in inputs.items() if d.dtype != \"real\")\n")
+fire("c13-integrate-measure-aligned-without-expand", "C13", INTEGRATE,
+     "            lhs_white_vec, lhs_prec_sqrt = align_gaussian(\n                inputs, log_measure, expand=True\n            )\n", "            lhs_white_vec, lhs_prec_sqrt = align_gaussian(inputs, log_measure)\n", "R13.10", "eager_integrate_gaussian_gaussian")
+
 # ===== derived variants: must stay at the END of this file (they enumerate every rename() variant above) =====
 # `if c: A else: B` -> `if not c: B else: A` in the anchor functions (behaviour-preserving)
 def invert(prop, file, qual):
